@@ -12,6 +12,7 @@ import (
 	"fmt"
 	"math/rand"
 	"os"
+	"path"
 	"path/filepath"
 	"sort"
 	"strings"
@@ -96,12 +97,35 @@ var (
 	mntOpts    = []string{"ro", "rw", "bind", "rbind", "nosuid", "noexec", "mode=755", "size=64k"}
 )
 
+// unclean spells a path so that it is NOT in path.Clean form (one time in four): a trailing slash, a doubled
+// slash, dot and dot-dot elements.  The plugins hand paths on verbatim; the statement says "exactly what the
+// annotation says".
+func unclean(r *rand.Rand, p string) string {
+	if r.Intn(4) != 0 {
+		return p
+	}
+	i := strings.LastIndex(p, "/")
+	switch r.Intn(6) {
+	case 0:
+		return p + "/"
+	case 1:
+		return p[:i] + "//" + p[i+1:]
+	case 2:
+		return p[:i] + "/./" + p[i+1:]
+	case 3:
+		return p[:i] + "/tmp/../" + p[i+1:]
+	case 4:
+		return p + "/."
+	}
+	return "/" + p + "//"
+}
+
 func genDevs(r *rand.Rand, tag string) value {
 	n := []int{0, 1, 1, 1, 2, 2, 3}[r.Intn(7)]
 	v := value{Kind: "dev", OK: true, Devs: []devV{}}
 	var elems []string
 	for i := 0; i < n; i++ {
-		d := devV{Path: fmt.Sprintf("/dev/%s-%d", tag, i), Type: devTypes[r.Intn(len(devTypes))],
+		d := devV{Path: unclean(r, fmt.Sprintf("/dev/%s-%d", tag, i)), Type: devTypes[r.Intn(len(devTypes))],
 			Major: int64Pool[r.Intn(len(int64Pool))], Minor: int64Pool[r.Intn(len(int64Pool))],
 			FileMode: uint32Pool[r.Intn(len(uint32Pool))], UID: uint32Pool[r.Intn(len(uint32Pool))], GID: uint32Pool[r.Intn(len(uint32Pool))]}
 		v.Devs = append(v.Devs, d)
@@ -131,7 +155,7 @@ func genMnts(r *rand.Rand, tag string) value {
 	v := value{Kind: "mnt", OK: true, Mnts: []mntV{}}
 	var elems []string
 	for i := 0; i < n; i++ {
-		m := mntV{Source: fmt.Sprintf("/host/%s/%d", tag, r.Intn(9)), Destination: fmt.Sprintf("/mnt/%s/%d", tag, i), Type: mntTypes[r.Intn(len(mntTypes))], Options: []string{}}
+		m := mntV{Source: fmt.Sprintf("/host/%s/%d", tag, r.Intn(9)), Destination: unclean(r, fmt.Sprintf("/mnt/%s/%d", tag, i)), Type: mntTypes[r.Intn(len(mntTypes))], Options: []string{}}
 		for k := r.Intn(4); k > 0; k-- {
 			m.Options = append(m.Options, mntOpts[r.Intn(len(mntOpts))])
 		}
@@ -300,7 +324,28 @@ func bareOnly(ann map[string]string) bool {
 	return some
 }
 
-// genInjCase: stream = main | malformed | prefix | bareonly
+// longName returns a container name of 50 to 70 characters and its siblings: names in prefix relation with it at
+// the length where "container."+name reaches 63 characters (the limit Kubernetes puts on the name part of an
+// annotation key), one below and one above, and a few shorter prefixes.
+func longName(r *rand.Rand, i int) (string, []string) {
+	const alphabet = "abcdefghijklmnopqrstuvwxyz0123456789-"
+	l := 50 + i%21
+	b := make([]byte, l)
+	for k := range b {
+		b[k] = alphabet[r.Intn(len(alphabet))]
+	}
+	name := string(b)
+	var sibs []string
+	for _, cut := range []int{53, 52, 54, 63, 62, 43, 10} {
+		if cut < l {
+			sibs = append(sibs, name[:cut])
+		}
+	}
+	sibs = append(sibs, name+"x")
+	return name, sibs
+}
+
+// genInjCase: stream = main | malformed | prefix | bareonly | longname
 func genInjCase(r *rand.Rand, stream string, i int) *injCase {
 	cs := &injCase{Plugin: "device-injector", Stream: stream, Ctr: ctrNames[r.Intn(len(ctrNames))], Ann: map[string]string{}, Values: map[string]value{}, Levels: map[string]string{}}
 	pBad := 3
@@ -324,6 +369,33 @@ func genInjCase(r *rand.Rand, stream string, i int) *injCase {
 		return genMnts(r, tag)
 	}
 	n := 0
+	if stream == "longname" {
+		// a long-named container WITHOUT a container-scoped annotation of its own, siblings whose names are its
+		// prefixes (at and around the cut length) with annotations, sometimes pod-scoped / bare keys
+		var sibs []string
+		cs.Ctr, sibs = longName(r, i)
+		pBad = []int{0, 0, 40}[i%3]
+		for _, kind := range []string{"dev", "cdi", "mnt"} {
+			main := diMains[kind]
+			put := func(key, tag string) {
+				n++
+				v := gen(kind, fmt.Sprintf("%s%d", tag, n))
+				cs.Ann[key], cs.Values[key] = v.Text, v
+			}
+			for k, sib := range sibs {
+				if k == 0 || r.Intn(100) < 40 { // the sibling at the cut length always
+					put(main+"/container."+sib, "sib")
+				}
+			}
+			if r.Intn(100) < 30 {
+				put(main+"/pod", "pod")
+			}
+			if r.Intn(100) < 30 {
+				put(main, "bare")
+			}
+		}
+		return cs
+	}
 	if stream == "bareonly" {
 		// the pod's injector annotations are exclusively bare keys: a non-empty subset of the three kinds (i%7+1 as a
 		// bit set, so every subset recurs), decoys that are not scoped keys, unrelated annotations; no key anywhere
@@ -404,6 +476,19 @@ func genUlCase(r *rand.Rand, stream string, i int) *injCase {
 	put := func(key string, own bool) {
 		v := gen(own)
 		cs.Ann[key], cs.Values[key] = v.Text, v
+	}
+	if stream == "longname" {
+		var sibs []string
+		cs.Ctr, sibs = longName(r, i)
+		for k, sib := range sibs {
+			if k == 0 || r.Intn(100) < 40 {
+				put(ulMain+"/container."+sib, false)
+			}
+		}
+		if r.Intn(100) < 30 {
+			put(ulMain+"/pod", false)
+		}
+		return cs
 	}
 	if stream == "errors" || r.Intn(100) < 65 {
 		put(ulMain+"/container."+cs.Ctr, true)
@@ -810,9 +895,11 @@ func driveInjectors(c *hx.Ctx) error {
 		{"device-injector", "malformed", c.Pick(80, 3000)},
 		{"device-injector", "prefix", c.Pick(80, 3000)},
 		{"device-injector", "bareonly", c.Pick(63, 2100)},
+		{"device-injector", "longname", c.Pick(42, 1260)},
 		{"ulimit-adjuster", "main", c.Pick(120, 4000)},
 		{"ulimit-adjuster", "errors", c.Pick(90, 3000)},
 		{"ulimit-adjuster", "prefix", c.Pick(60, 2000)},
+		{"ulimit-adjuster", "longname", c.Pick(42, 1260)},
 	}
 	failing := 0
 	for _, s := range streams {
@@ -865,6 +952,23 @@ func driveInjectors(c *hx.Ctx) error {
 					c.Count("c20.inj.bare_only.expected.error", 1)
 				}
 			}
+			if len("container."+cs.Ctr) > 63 {
+				if _, ok := cs.Ann[map[string]string{"inj": diMains["dev"], "ul": ulMain}[short]+"/container."+cs.Ctr[:53]]; ok {
+					c.Count("c20."+short+".long_name_with_sibling_at_cut", 1)
+				}
+			}
+			for _, v := range cs.Values {
+				for _, d := range v.Devs {
+					if path.Clean(d.Path) != d.Path {
+						c.Count("c20.inj.unclean_paths", 1)
+					}
+				}
+				for _, m := range v.Mnts {
+					if path.Clean(m.Destination) != m.Destination {
+						c.Count("c20.inj.unclean_paths", 1)
+					}
+				}
+			}
 			c.Count("c20.cases."+short+"."+s.name, 1)
 			c.Eval(fmt.Sprintf("%s/%s/%s/%v", short, s.name, cs.Ctr, cs.Ann), nontrivial || foreign > 0)
 			if len(bad) > 0 {
@@ -879,14 +983,15 @@ func driveInjectors(c *hx.Ctx) error {
 	d := c.Stats.Distribution
 	for _, k := range []string{"c20.inj.selected.dev.container", "c20.inj.selected.dev.pod", "c20.inj.selected.dev.bare", "c20.inj.selected.mnt.container",
 		"c20.inj.selected.cdi.pod", "c20.inj.expected.error", "c20.ul.expected.error", "c20.ul.selected.ul.container", "c20.inj.foreign_container_keys", "c20.ul.foreign_container_keys",
-		"c20.inj.bare_only.expected.ok", "c20.inj.bare_only.expected.error"} {
+		"c20.inj.bare_only.expected.ok", "c20.inj.bare_only.expected.error",
+		"c20.inj.long_name_with_sibling_at_cut", "c20.ul.long_name_with_sibling_at_cut", "c20.inj.unclean_paths"} {
 		if d[k] == 0 {
 			c.HarnessError("injector streams missed their target shape: %s = 0", k)
 		}
 	}
 	c.Stats.Extra = map[string]interface{}{"plugin_build_ms": buildMs, "cases_failing_go_oracle": failing,
 		"trusted": "sigs.k8s.io/yaml is assumed to decode the rendered one-line JSON to the value it was rendered from, and to reject the malformed texts"}
-	c.Stats.Rule = "stream bareonly: pods whose injector annotations are exclusively bare main keys (every non-empty subset of devices / CDI devices / mounts, valid and malformed payloads, no key starting with a main key and a slash); otherwise pod annotation maps mixing keys for this container, other containers (random and prefix-related names), pod scope, the bare key and near-miss decoy keys, under each main key; values = structured payloads (boundary integers, optional fields left out, unknown fields) rendered to one-line JSON, or malformed texts; sent as CreateContainer through a real Adaptation to the real plugin binaries; a case is non-trivial when some annotation applies to the container or some key addresses another container"
+	c.Stats.Rule = "stream longname: container names of 50-70 characters without an annotation of their own, siblings whose names are their prefixes at, one below and one above the length where container.<name> reaches 63 characters, annotated (valid and malformed); one device path / mount destination in four is not in path.Clean form (trailing slash, doubled slash, dot, dot-dot) and is expected verbatim; stream bareonly: pods whose injector annotations are exclusively bare main keys (every non-empty subset of devices / CDI devices / mounts, valid and malformed payloads, no key starting with a main key and a slash); otherwise pod annotation maps mixing keys for this container, other containers (random and prefix-related names), pod scope, the bare key and near-miss decoy keys, under each main key; values = structured payloads (boundary integers, optional fields left out, unknown fields) rendered to one-line JSON, or malformed texts; sent as CreateContainer through a real Adaptation to the real plugin binaries; a case is non-trivial when some annotation applies to the container or some key addresses another container"
 	return nil
 }
 
